@@ -292,6 +292,10 @@ pub fn run(cx: &Cx) -> PropResult {
         if drive(crate::run::tag_seed(derive_seed(cx.seed, cx.prop, shard as u64, 0), 0), &strat, n_sinks, acc, &|c: &TV| to_json(&Case::Sinks(c.clone())), &mut |c, a, r| check_sinks(c, a, r)) {
             return;
         }
+        let strat = crate::props::builtin::ser_only_tv_strategy(cfg);
+        if drive(crate::run::tag_seed(derive_seed(cx.seed, cx.prop, shard as u64, 2), 2), &strat, n_sinks / 5, acc, &|c: &TV| to_json(&Case::Sinks(c.clone())), &mut |c, a, r| check_sinks(c, a, r)) {
+            return;
+        }
         let strat = ops_strategy();
         drive(crate::run::tag_seed(derive_seed(cx.seed, cx.prop, shard as u64, 1), 1), &strat, n_ops, acc, &|c: &OpsCase| to_json(&Case::Ops(c.clone())), &mut |c, a, r| check_ops(c, a, r));
     });
